@@ -21,6 +21,9 @@ def _f1_short(cfg, sz):
                 continue
             if cfg.get('cls', '').startswith('SFB'):
                 n = 2 * n
+            if sz.get('synth1'):
+                # one-level synthesis function (sfb1d): the single fold is exact down to 2*len == L-2 (proved), F1 starts below
+                L = L - 2
             for j in range(J):
                 if n + n % 2 < L:
                     return True
